@@ -112,14 +112,18 @@ class _RecursionLimitGuard:
     """
     Started and stopped along with the patches of an execution: puts the
     interpreter-wide recursion limit back to what it was, should the student's
-    code have changed it with ``sys.setrecursionlimit``.
+    code have changed it with ``sys.setrecursionlimit``, and ``sys.modules``
+    back to the interpreter's module table, should it have been rebound.
     """
     def start(self):
         self.limit = sys.getrecursionlimit()
+        self.module_table = sys.modules
 
     def stop(self):
         if sys.getrecursionlimit() != self.limit:
             sys.setrecursionlimit(self.limit)
+        if getattr(sys, 'modules', None) is not self.module_table:
+            sys.modules = self.module_table
 
 
 class Sandbox:
